@@ -6,6 +6,18 @@ HERE = os.path.dirname(os.path.dirname(os.path.abspath(__file__)))
 
 # id -> (level category, technique, level text, level note, design ref)
 CHECKS = {
+ "C11": ("model_checking", "explicit-state BFS by history replay over a real ClaimTable against a history-based reference; exhaustive prefix-match enumeration",
+         "Per address family (IPv4, IPv6, VLAN+MAC) all sequences over {announce one of 6 claim subsets for one of 3 peers, disconnect, lookup of 4 addresses hitting every nesting level and none, advance 0/1/switch timeout/peer timeout with sweep, advance 1 without sweep} to depth 4 quick / 6 thorough (2.7 M canonical states) run on the real table; each lookup result must be in the allowed set of a history-only reference: peer of a most specific live claim (one sweep of slack), nothing if no live claim contains the address, or an earlier decision still within the switch timeout whose claim is still announced and whose peer was not removed; every state is additionally probed with all 4 lookups. Range::matches is compared with a bit-by-bit reference on the complete 8-bit universe, the 16-bit universe (boundary addresses quick, all thorough) and one-bit-difference addresses for 4/6/8/16-byte ranges with prefixes 0..=255. Node level: unknown destinations are dropped and counted in router mode and sent once to every peer in switch/hub mode; most specific claim wins across peers.",
+         "Trusted: the reference (40 lines) and the canonical form (audited). Time constants scaled down (3 s / 7 s).",
+         "DESIGN.md section 5 C11"),
+ "C12": ("model_checking", "exhaustive enumeration of announcement sequences on a real ClaimTable plus scenario enumeration on real nodes driven by a scripted peer",
+         "All sequences of 3 (quick) / 4 (thorough) announcements of one peer over all 65 ordered repetition-free lists of a 4-claim universe x a second peer with overlapping claims announcing at step 0/1/never x time step 0/1, plus all pairs involving lists with a duplicated entry: after every step the claims attributed to the peer equal the last announcement as a set, each lives exactly one peer timeout, no lookup resolves through a withdrawn claim; after the peer timeout nothing of a silent peer survives; removal clears claims, cached decisions and addresses learned from claim-less peers. Node level (real 2-node router mesh + scripted peer speaking through a real PeerCrypto): re-announce, restart on the same address with another node id and claims, silence past the timeout, close message, second handshake from the same address that never completes, keepalive-only - each at 4 start offsets x 6 claim variants; every second: next hops of claims and cache are peers and an interface read never hits 'Sending to node that is not a peer'.",
+         "Trusted: scripted peer uses the repository's own codecs (covered separately by C16). Scaled-down time constants in the table part.",
+         "DESIGN.md section 5 C12"),
+ "C15": ("exploration", "exhaustive enumeration of timeout settings through real nodes (interval function), plus enumerated mesh / silence / back-off runs",
+         "A real node is built for every own peer timeout in {0,1,59,60,119,120,121,300,65535} x keepalive in {unset,0,1,59,600,65535,100000}; a scripted peer connects through a real handshake advertising v (0..=400 + 16-bit boundaries quick, all 65536 thorough; alone or next to a peer advertising 300); after the announcing housekeep the scheduled delay must be 1 s or strictly below the smallest timeout advertised by the CURRENT peers; construction and housekeeping must not panic (overflow checks on). Membership churn: peers with advertised timeouts from an 11-value grid replace each other between announcements. All timeout triples of a 3-node mesh run, after a settle phase, for 3x the largest timeout without any disconnect; a node silenced from second t (every t in 0..=200) is removed with its routes at the first housekeep after its expiry and re-dialled; an unreachable configured peer is dialled for 48 h with gaps <= 3600 s.",
+         "Trusted: H7 next_peers view. The 'healthy peers never time out' half is checked for stable membership (after every node has scheduled once knowing all peers); the transient after a short-timeout peer joins is reported as an observation in DESIGN.md, not as a violation.",
+         "DESIGN.md section 5 C15"),
  "C01": ("fault_enumeration", "fault-space enumeration of forged handshake inputs x receiver stages on real PeerCrypto objects and nodes; exhaustive trust-graph enumeration through real handshakes",
          "Receivers prepared by genuine exchanges in the five stages (fresh, awaiting pong, awaiting peng, completed-lingering, closed; retry counters non-zero) receive, for genuine in-context and twin-run ping/pong/peng: every single-bit flip, every truncation with zero and junk buffer tail, well-formed messages of every stage value signed by an untrusted key (also grafted onto the trusted key's hash prefix), 0xff + every string of length <= 2, valid prefix + every tag x extreme length: each must return an error and leave the receiver's view unchanged. All 4096 trust graphs (4 key pairs, own key x 16 trusted subsets, both parties, both initiators) run as real handshakes: both complete iff each key is in the other's effective trusted set, otherwise no core/rotation state exists. Node level: 4 victim states x in-context genuine datagrams x bit flips/truncations/untrusted messages from the peer's and an unknown address, with C08's no-state/no-reply/no-write oracle.",
          "Trusted: Ed25519 (ring). A truncation that the buffer tail completes to the genuine message is a replay (C09), not a forgery.",
